@@ -142,3 +142,23 @@ rewrite (@det_elementwise _ _ J).
   by move=> e; move: ij; rewrite (val_inj e) eqxx.
 Qed.
 End LogitDet.
+
+Section CPAdet.
+Variables (n : nat) (mask : nat -> bool) (cond : condT R).
+Let maskv : list R := vec R n (fun i => if mask i then 1%R else 0%R).
+Let imaskv : list R := vec R n (fun i => if mask i then 0%R else 1%R).
+
+(* additive coupling: the Jacobian is unit-triangular, the reported log-det is 0 *)
+Theorem coupling_additive_logdet (x : list R) (J : 'M[R]_n) : length x = n ->
+  (forall i j : 'I_n, is_derive (partial (cpa_map n mask cond) x i j) (List.nth j x 0%R) (J i j)) ->
+  \det J = exp (snd (Rcoupling_bwd false n maskv imaskv cond x)).
+Proof.
+move=> Hx HJ.
+have lt i : (nat_of_ord (i : 'I_n) < n)%coq_nat by apply/ltP.
+rewrite (cpa_ldj n mask cond x) exp_0 (@det_coupling _ _ J (fun i => mask i)).
+- rewrite big1 // => i _; apply: (derive_unique2 (HJ i i)); exact: (@cpa_jacobian_diag n mask cond x i Hx (lt i)).
+- move=> i j ij m; apply: (derive_unique2 (HJ i j)); apply: (@cpa_jacobian_zero n mask cond x i j Hx (lt i) (lt j)).
+  + by move=> e; move: ij; rewrite (val_inj e) eqxx.
+  + by case/orP: m => [->|/negbTE ->]; [left|right].
+Qed.
+End CPAdet.
